@@ -546,13 +546,16 @@ impl EpochDifficultyTrend {
                     let state = "decreased";
                     for index in 0..*epochs_count {
                         curr /= tau;
+                        // The limit is saturated at the maximum if it overflows, since the actual
+                        // total difficulty couldn't be greater than that.
                         total = total.checked_add(&curr).unwrap_or_else(|| {
-                            panic!(
+                            debug!(
                                 "overflow when calculate the limit of total difficulty, \
                                 total: {}, current: {}, index: {}/{}, tau: {}, \
                                 state: {}, trend: {:?}, details: {:?}",
                                 total, curr, index, epochs_count, tau, state, self, details
                             );
+                            U256::max_value()
                         });
                         if total >= *actual {
                             if check_max {
@@ -573,13 +576,16 @@ impl EpochDifficultyTrend {
                     let state = "increased";
                     for index in 0..*epochs_count {
                         curr = curr.saturating_mul(&tau_u256);
+                        // The limit is saturated at the maximum if it overflows, since the actual
+                        // total difficulty couldn't be greater than that.
                         total = total.checked_add(&curr).unwrap_or_else(|| {
-                            panic!(
+                            debug!(
                                 "overflow when calculate the limit of total difficulty, \
                                 total: {}, current: {}, index: {}/{}, tau: {}, \
                                 state: {}, trend: {:?}, details: {:?}",
                                 total, curr, index, epochs_count, tau, state, self, details
                             );
+                            U256::max_value()
                         });
                         if total >= *actual {
                             if check_max {
@@ -598,8 +604,11 @@ impl EpochDifficultyTrend {
                 }
             }
         }
+        let limit = total
+            .checked_add(unaligned)
+            .unwrap_or_else(U256::max_value);
         if check_max {
-            if &total + unaligned >= *actual {
+            if limit >= *actual {
                 debug!("check total difficulty: not greater than upper limit (fully-calculated)");
                 Ok(())
             } else {
@@ -609,7 +618,7 @@ impl EpochDifficultyTrend {
                 );
                 Err(errmsg)
             }
-        } else if &total + unaligned <= *actual {
+        } else if limit <= *actual {
             debug!("check total difficulty: not less than lower limit (fully-calculated)");
             Ok(())
         } else {
@@ -948,6 +957,39 @@ fn print_difficulties_distribution(
     }
 }
 
+// The epochs are provided by remote peers, check them before doing any arithmetic.
+fn check_epochs(
+    start_epoch: EpochNumberWithFraction,
+    end_epoch: EpochNumberWithFraction,
+) -> Result<(), String> {
+    if !start_epoch.is_well_formed() || !end_epoch.is_well_formed() {
+        let errmsg = format!(
+            "failed since the epochs ([{:#},{:#}]) are malformed",
+            start_epoch, end_epoch
+        );
+        return Err(errmsg);
+    }
+    if start_epoch.number() > end_epoch.number()
+        || (start_epoch.number() == end_epoch.number() && start_epoch.index() > end_epoch.index())
+    {
+        let errmsg = format!(
+            "failed since the epochs ([{:#},{:#}]) are not in order",
+            start_epoch, end_epoch
+        );
+        return Err(errmsg);
+    }
+    Ok(())
+}
+
+fn checked_mul_u64(difficulty: &U256, count: u64) -> Result<U256, String> {
+    difficulty.checked_mul(&U256::from(count)).ok_or_else(|| {
+        format!(
+            "failed since overflow when calculate {:#x} * {}",
+            difficulty, count
+        )
+    })
+}
+
 pub(crate) fn verify_tau(
     start_epoch: EpochNumberWithFraction,
     start_compact_target: u32,
@@ -955,6 +997,10 @@ pub(crate) fn verify_tau(
     end_compact_target: u32,
     tau: u64,
 ) -> Result<bool, Status> {
+    if let Err(errmsg) = check_epochs(start_epoch, end_epoch) {
+        error!("{}", errmsg);
+        return Err(StatusCode::MalformedProtocolMessage.with_context(errmsg));
+    }
     if start_epoch.number() == end_epoch.number() {
         trace!("skip checking TAU since headers in the same epoch",);
         if start_compact_target != end_compact_target {
@@ -965,8 +1011,11 @@ pub(crate) fn verify_tau(
     } else {
         let start_block_difficulty = compact_to_difficulty(start_compact_target);
         let end_block_difficulty = compact_to_difficulty(end_compact_target);
-        let start_epoch_difficulty = start_block_difficulty * start_epoch.length();
-        let end_epoch_difficulty = end_block_difficulty * end_epoch.length();
+        let start_epoch_difficulty =
+            checked_mul_u64(&start_block_difficulty, start_epoch.length())
+                .map_err(|errmsg| StatusCode::InvalidCompactTarget.with_context(errmsg))?;
+        let end_epoch_difficulty = checked_mul_u64(&end_block_difficulty, end_epoch.length())
+            .map_err(|errmsg| StatusCode::InvalidCompactTarget.with_context(errmsg))?;
         // How many times are epochs switched?
         let epochs_switch_count = end_epoch.number() - start_epoch.number();
         let epoch_difficulty_trend =
@@ -984,6 +1033,8 @@ pub(crate) fn verify_total_difficulty(
     end_total_difficulty: &U256,
     tau: u64,
 ) -> Result<(), String> {
+    check_epochs(start_epoch, end_epoch)?;
+
     if start_total_difficulty > end_total_difficulty {
         let errmsg = format!(
             "failed since total difficulty is decreased from {:#x} to {:#x} \
@@ -998,7 +1049,8 @@ pub(crate) fn verify_total_difficulty(
 
     if start_epoch.number() == end_epoch.number() {
         let total_blocks_count = end_epoch.index() - start_epoch.index();
-        let total_difficulty_calculated = start_block_difficulty * total_blocks_count;
+        let total_difficulty_calculated =
+            checked_mul_u64(start_block_difficulty, total_blocks_count)?;
         if total_difficulty != total_difficulty_calculated {
             let errmsg = format!(
                 "failed since total difficulty is {:#x} \
@@ -1016,8 +1068,9 @@ pub(crate) fn verify_total_difficulty(
     } else {
         let end_block_difficulty = &compact_to_difficulty(end_compact_target);
 
-        let start_epoch_difficulty = start_block_difficulty * start_epoch.length();
-        let end_epoch_difficulty = end_block_difficulty * end_epoch.length();
+        let start_epoch_difficulty =
+            checked_mul_u64(start_block_difficulty, start_epoch.length())?;
+        let end_epoch_difficulty = checked_mul_u64(end_block_difficulty, end_epoch.length())?;
         // How many times are epochs switched?
         let epochs_switch_count = end_epoch.number() - start_epoch.number();
         let epoch_difficulty_trend =
@@ -1037,8 +1090,15 @@ pub(crate) fn verify_total_difficulty(
         // Step-2 Check the range of total difficulty.
         let start_epoch_blocks_count = start_epoch.length() - start_epoch.index() - 1;
         let end_epoch_blocks_count = end_epoch.index() + 1;
-        let unaligned_difficulty_calculated = start_block_difficulty * start_epoch_blocks_count
-            + end_block_difficulty * end_epoch_blocks_count;
+        let unaligned_difficulty_calculated =
+            checked_mul_u64(start_block_difficulty, start_epoch_blocks_count)?
+                .checked_add(&checked_mul_u64(
+                    end_block_difficulty,
+                    end_epoch_blocks_count,
+                )?)
+                .ok_or_else(|| {
+                    "failed since overflow when calculate the unaligned difficulty".to_owned()
+                })?;
         if epochs_switch_count == 1 {
             if total_difficulty != unaligned_difficulty_calculated {
                 let errmsg = format!(
